@@ -323,8 +323,13 @@ func vSubset(r *vRand, p []int64) []int64 {
 			q = append(q, x)
 		}
 	}
-	if len(q) == 0 && len(p) > 0 {
+	// an EMPTY remainder is a legitimate answer ("nothing left to resend"): the request is then replaced by an
+	// empty one; keep it possible (about one subset in eight), otherwise prefer a non-empty remainder
+	if len(q) == 0 && len(p) > 0 && r.Intn(3) != 0 {
 		q = append(q, p[0])
+	}
+	if r.Intn(12) == 0 {
+		q = nil
 	}
 	return q
 }
@@ -954,6 +959,7 @@ func vRunOnce(sc *vScenario, id *vIdeal) (*vObs, error) {
 	obs.isPerm = consumererror.IsPermanent(obs.err)
 
 	// timing sanity of THIS run (harness timers only; independent of whether the delays are right)
+	vLatencyGate(obs)
 	for k, c := range obs.calls {
 		if c.lateWake > vJitter {
 			obs.unstable = true
@@ -973,6 +979,27 @@ func vRunOnce(sc *vScenario, id *vIdeal) (*vObs, error) {
 		}
 	}
 	return obs, nil
+}
+
+// vLatencyGate marks a run in which the process stalled where the harness' timers cannot see it: between the
+// instant t0 and the first call of the exporter function (Send itself started late, so its clock origin is not t0),
+// or between the return of the last attempt (plus the entered wait, if any) and the return of Send.
+func vLatencyGate(obs *vObs) {
+	n := len(obs.calls)
+	if n == 0 {
+		return
+	}
+	if obs.calls[0].start > vJitter {
+		obs.unstable = true
+	}
+	last := obs.calls[n-1]
+	tail := obs.ret - last.end
+	if len(obs.delays) == n { // the run ended inside (or at the end of) a wait that was entered
+		tail -= obs.delays[n-1]
+	}
+	if tail > vJitter {
+		obs.unstable = true
+	}
 }
 
 // ---- direct oracle on the real call log ---------------------------------------------------------------------
@@ -1539,6 +1566,10 @@ func vRunGroup(g *vGroup) (all []*vObs, stopAt []int64, unstable bool, rerr erro
 		all[idx].delays = append(all[idx].delays, int64(d))
 	}
 	for i, obs := range all {
+		vLatencyGate(obs)
+		if obs.unstable {
+			unstable = true
+		}
 		obs.verdict = vClassify(obs.err)
 		obs.isShutdown = experr.IsShutdownErr(obs.err)
 		obs.isPerm = consumererror.IsPermanent(obs.err)
@@ -1775,6 +1806,18 @@ func TestVerifC05(t *testing.T) {
 	if skipped*2 > len(jobs) {
 		out.Oracle("waits-do-not-follow-schedule", "([], ([], ([], ([], ([], [])))))",
 			fmt.Sprintf("%d of %d runs had timers waking more than %d ms late in %d consecutive repetitions", skipped, len(jobs), vJitter/vMs, vRetries))
+	}
+
+	// kind 2: TimeoutConfig.Validate (tie of the translated function and of the model's timeout domain)
+	for _, tv := range []int64{-5 * int64(time.Second), -1, 0, 1, 70 * vMs, 5 * int64(time.Second), -int64(rng.Intn(1000) + 1), int64(rng.Intn(1000))} {
+		tc := internal.TimeoutConfig{Timeout: time.Duration(tv)}
+		verr := tc.Validate()
+		term := vPair(vZs([]int64{2, tv, vB(verr == nil)}), "([], ([], ([], ([], []))))")
+		out.Case(verr != nil, term)
+		out.Stat("timeout_validate_cases", 1)
+		if (verr == nil) != (tv >= 0) {
+			out.Oracle("timeout-validate-wrong", term, fmt.Sprintf("TimeoutConfig{Timeout: %d}.Validate() = %v", tv, verr))
+		}
 	}
 
 	// kind 1: BackOffConfig.Validate
